@@ -208,3 +208,38 @@ MUTANTS.update({
     ('line-sent-counter-off', [(CL, "    instrumentation.increment(self.sent, len(datapoints))", "    instrumentation.increment(self.sent, 1)")]),
   ],
 })
+
+AB = 'lib/carbon/aggregator/buffers.py'
+AP = 'lib/carbon/aggregator/processor.py'
+MUTANTS.update({
+  'C08': [
+    ('clear-values-on-emission', [(AB, "        buffer.mark_inactive(current_interval)\n", "        buffer.mark_inactive(current_interval)\n        buffer.values = []\n")]),
+    ('interval-floor-div', [(AB, "    interval = timestamp - (timestamp % self.aggregation_frequency)", "    interval = timestamp // self.aggregation_frequency")]),
+    ('no-mark-inactive', [(AB, "        buffer.mark_inactive(current_interval)\n", "        pass\n")]),
+    ('cap-ge', [(AB, "    if len(self.interval_buffers) > max_aggregation_intervals + 2:", "    if len(self.interval_buffers) >= max_aggregation_intervals + 1:")]),
+    ('cap-missing', [(AB, "    if len(self.interval_buffers) > max_aggregation_intervals + 2:", "    if len(self.interval_buffers) > max_aggregation_intervals + 20:")]),
+    ('regex-no-dollar', [(AR, "regex_pattern = '\\\\.'.join(regex_pattern_parts) + '$'", "regex_pattern = '\\\\.'.join(regex_pattern_parts)")]),
+    ('field-spans-dots', [(AR, "regex_part = '%s(?P<%s>[^.]+?)%s' % (pre, field_name, post)", "regex_part = '%s(?P<%s>.+?)%s' % (pre, field_name, post)")]),
+    ('forward-aggregate-named', [(AP, "    if settings.FORWARD_ALL and metric not in aggregate_metrics:", "    if settings.FORWARD_ALL:")]),
+    ('forward-ignores-setting', [(AP, "    if settings.FORWARD_ALL and metric not in aggregate_metrics:", "    if metric not in aggregate_metrics:")]),
+    ('first-rule-only', [(AP, "      values_buffer.input(datapoint)\n", "      values_buffer.input(datapoint)\n      break\n")]),
+    ('never-unregister', [(AB, "      del BufferManager.buffers[self.metric_path]", "      pass")]),
+    ('avg-int-division', [(AR, "    return float(sum(values)) / len(values)", "    return sum(values) // len(values)")]),
+    ('percentile-rank', [(AR, "      rank = factor * (len(values) - 1)", "      rank = factor * len(values) - 1 if len(values) > 3 else factor * (len(values) - 1)")]),
+    ('delete-before-emit-when-old', [(AB, "      if buffer.inactive_since is None:\n        value", "      if buffer.inactive_since is None and buffer.interval >= age_threshold:\n        value")]),
+  ],
+  'C09': [
+    ('pretake-size', [(CL, "    queueSize = self.factory.queueSize\n    if (self.factory.queueFull.called and queueSize < SEND_QUEUE_LOW_WATERMARK):", "    if (self.factory.queueFull.called and queueSize < SEND_QUEUE_LOW_WATERMARK):")]),
+    ('no-space-event-on-reroute', [(CL, "      if (self.queueFull.called and not self.queueHasSpace.called and\n              self.router.countDestinations()):\n        self.queueHasSpace.callback(self.queueSize)", "      pass")]),
+    ('space-check-outside-lock', [(C, "        datapoint_index = self._pop(metric)\n        self._check_available_space()\n      return", "        datapoint_index = self._pop(metric)\n      self._check_available_space()\n      return")]),
+    ('watermark-le', [(C, "    if state.cacheTooFull and self.size < settings.CACHE_SIZE_LOW_WATERMARK:", "    if state.cacheTooFull and self.size < settings.CACHE_SIZE_LOW_WATERMARK - 1:")]),
+    ('queuefull-not-rearmed', [(CL, "      self.queueFull = Deferred()\n      self.queueFull.addCallbacks(self.queueFullCallback, log.err)\n      state.events.cacheSpaceAvailable()", "      state.events.cacheSpaceAvailable()")]),
+    ('late-receiver-not-paused', [(P, "    if state.metricReceiversPaused:\n      self.pauseReceiving()\n      if not", "    if False:\n      self.pauseReceiving()\n      if not")]),
+    ('connect-subscribe-late', [(P, "    # Subscribe before looking at the flag: the cache's writer thread may resume\n    # the receivers while we are connecting.\n    if settings.USE_FLOW_CONTROL:\n      events.pauseReceivingMetrics.addHandler(self.pauseReceiving)\n      events.resumeReceivingMetrics.addHandler(self.resumeReceiving)\n",
+                                 ""),
+                                (P, "    state.connectedMetricReceiverProtocols.add(self)\n    checkIfAcceptingConnections()\n", "    state.connectedMetricReceiverProtocols.add(self)\n    checkIfAcceptingConnections()\n    if settings.USE_FLOW_CONTROL:\n      events.pauseReceivingMetrics.addHandler(self.pauseReceiving)\n      events.resumeReceivingMetrics.addHandler(self.resumeReceiving)\n")]),
+    ('resume-wiring-removed', [('lib/carbon/service.py', "  writer_service = WriterService()\n  writer_service.setServiceParent(root_service)\n\n  if settings.USE_FLOW_CONTROL:\n    events.cacheFull.addHandler(events.pauseReceivingMetrics)\n    events.cacheSpaceAvailable.addHandler(events.resumeReceivingMetrics)",
+                                "  writer_service = WriterService()\n  writer_service.setServiceParent(root_service)\n\n  if settings.USE_FLOW_CONTROL:\n    events.cacheFull.addHandler(events.pauseReceivingMetrics)")]),
+    ('space-event-only-when-empty', [(CL, "    if (self.factory.queueFull.called and queueSize < SEND_QUEUE_LOW_WATERMARK):", "    if (self.factory.queueFull.called and queueSize < SEND_QUEUE_LOW_WATERMARK and queueSize != 1):")]),
+  ],
+})
